@@ -8,5 +8,6 @@ CONSTANTS
   BatchSize = 16
   NInst = 30
   StrLen = 3
-  MaxModels = 8
-  MaxInsts = 40
+  MaxModels = 4
+  MaxSpecial = 4
+  MaxInsts = 30
